@@ -49,6 +49,13 @@ func (in *Interp) addAttr(p *Ptr, key string, val *smt.Term) {
 // dsigVerified: what a successful Validate returns — a fresh copy of the element without its enveloped Signature,
 // marked vx-verified, as the root of a fresh document.
 func (in *Interp) dsigVerified(el *Ptr) Value {
+	if in.hasCData(el) {
+		// goxmldsig canonicalises by serialising the tree it is given with etree's canonical write settings, which
+		// emit a CDATA node literally; a conformant signer digested the escaped text, so the digests differ
+		in.X.noteAssumption("goxmldsig canonicalisation writes CDATA nodes literally: a signed subtree handed over with CDATA nodes (ReadSettings.PreserveCData) does not verify")
+		in.event("dsig: digest mismatch (CDATA node in the tree to canonicalise)")
+		return Tuple{nilPtr, in.opaqueError("dsig-digest-cdata")}
+	}
 	out := in.elemCopy(el)
 	// drop the enveloped Signature child (direct child named Signature) if the scenario carries one
 	rm := in.etreeMethod(types.NewPointer(in.etreeType("Element")), "RemoveChildAt")
